@@ -194,6 +194,10 @@ class _Generator(Generator):
             ]
         )
 
+    def bit_string_first_bit_shift(self, size):
+        # The bits are right aligned.
+        return size - 1
+
     def format_boolean_inner(self):
         return (
             [
